@@ -32,6 +32,9 @@ fn rnd(x: &mut u64) -> u64 {
 
 fn call(k: u64, pb: &ProgressBar, mp: &Option<MultiProgress>) -> i64 {
     match k % 13 {
+        // (13 and 14 are only reachable from the counting scenarios, which pass them verbatim)
+        _ if k == 13 => { pb.inc_length(3); 3 << 20 }
+        _ if k == 14 => { pb.dec_length(1); -(1 << 20) }
         0 | 1 => { pb.update(|s| { let p = s.pos(); s.set_pos(p.wrapping_add(1)); }); 0 }
         2 => { pb.tick(); 0 }
         3 => { pb.inc(2); 2 }
@@ -71,7 +74,7 @@ fn main() {
     let handles: Vec<_> = (0..n_threads)
         .map(|_| {
             let n_calls = if counting_only { 8 } else { 2 + rnd(&mut x) % 3 };
-            let ks: Vec<u64> = (0..n_calls).map(|_| if counting_only { [3u64, 9, 3, 3][(rnd(&mut x) % 4) as usize] } else { rnd(&mut x) }).collect();
+            let ks: Vec<u64> = (0..n_calls).map(|_| if counting_only { [3u64, 9, 3, 13, 14, 13][(rnd(&mut x) % 6) as usize] } else { rnd(&mut x) }).collect();
             let (pb, mp) = (pb.clone(), mp.clone());
             std::thread::spawn(move || {
                 let mut net: i64 = 0;
@@ -87,8 +90,13 @@ fn main() {
         net += h.join().expect("worker panicked");
     }
     if counting_only {
-        let want = (net as u64) as u64;
+        // position deltas live in the low 20 bits of the sum, length deltas above (both stay small)
+        let len_net = (net + (1 << 19)) >> 20;
+        let pos_net = net - (len_net << 20);
+        let want = pos_net as u64;
         assert_eq!(pb.position(), want, "lost update: position {} expected {}", pb.position(), want);
+        let want_len = Some((50 + len_net) as u64);
+        assert_eq!(pb.length(), want_len, "lost update: length {:?} expected {:?}", pb.length(), want_len);
     }
     pb.disable_steady_tick();
     drop(pb);
